@@ -133,6 +133,15 @@ inline void Epoch::unlock() noexcept {
 }
 
 inline void Epoch::unregister_accessor(size_t index) noexcept {
+  auto& slot = _slots[index];
+  if (slot.lock_times != 0) {
+    // Released with a critical region still open: close it, otherwise the slot
+    // keeps publishing its version forever (low_water_mark never advances) and
+    // the next accessor reusing this slot inherits a non-zero lock_times, so
+    // its lock() publishes nothing.
+    slot.lock_times = 0;
+    slot.version.store(UINT64_MAX, ::std::memory_order_release);
+  }
   _id_allocator.deallocate(index);
 }
 
